@@ -40,6 +40,10 @@ def run(prop, tier, seed, replay=None):
     pure = C.build_pure()
     suite = ExprSuite()
     if replay:
+        payload = json.load(open(os.path.join(C.VERIF, replay) if not os.path.isabs(replay) else replay))
+        if payload.get("suite") == "mgr":
+            import suite_mgr
+            return S.do_replay(suite_mgr.Mgr(), prop, payload.get("family", "c11"), pure, replay)
         return S.do_replay_cases(suite, prop, family, pure, replay)
 
     ok, log = C.lean_build()
@@ -92,6 +96,32 @@ def run(prop, tier, seed, replay=None):
         import suite_print
         diffs, nlines = suite_print.correspond(prop, prefixes)
 
+    # ---- C11's manager half: histories with definitions loaded from dumps, replayed on XModel/Manager.lean (the model
+    #      that C11_load_dump_reacts_identically is about), plus the dump -> fresh manager twin oracle ----
+    mgr_diffs, mgr_lines, mgr_failures = [], 0, []
+    if prop == "C11":
+        import suite_mgr
+        ms = suite_mgr.Mgr()
+        nm = 480 if tier == "quick" else 12000
+        mjobs, mprefs = [], []
+        for j in range(C.NPROC):
+            mpref = os.path.join(sc, "C11_mgr_%d" % j)
+            mjobs.append((S.worker_argv(ms, "c11", seed * 1000 + 700 + j, max(1, nm // C.NPROC), mpref, ["--maxops", "16"]),
+                          C.py_env(pure, (seed * 31 + j) % 1000)))
+            mprefs.append(mpref)
+        C.run_jobs(mjobs)
+        for mpref in mprefs:
+            res = json.load(open(mpref + ".res.json"))
+            for k, val in res["stats"].items():
+                if isinstance(val, (int, float)):
+                    stats_total["mgr:" + k] = stats_total.get("mgr:" + k, 0) + val
+            mgr_failures += [(mpref, fl) for fl in res["failures"] if fl["property"] == prop]
+            if ok:
+                C.run_driver("mgr", mpref + ".ops.jsonl", mpref + ".model.jsonl")
+                d, nl = S.compare(ms, mpref, {"bad-op", "exc", "defs", "store", "sup"})
+                mgr_lines += nl
+                mgr_diffs += [(mpref, x) for x in d]
+
     seen = set()
     for pref, bdir, fl in failures:
         key = (fl["kind"], fl.get("known"))
@@ -100,6 +130,8 @@ def run(prop, tier, seed, replay=None):
         seen.add(key)
         case = S.history_ops(suite, pref, fl["hist"])
         v.failing_input(fl, {"suite": "expr", "family": family, "ops": case})
+    for mpref, fl in mgr_failures[:3]:
+        v.failing_input(fl, {"suite": "mgr", "family": "c11", "ops": S.history_ops(suite_mgr.Mgr(), mpref, fl["hist"])})
     if not v.violations:
         if lean_problems:
             v.broken("lean: " + "; ".join(lean_problems)[:600], {"suite": "expr", "theorem_or_obligation": lean_problems[:5]})
@@ -108,6 +140,11 @@ def run(prop, tier, seed, replay=None):
         if diffs:
             v.broken("correspondence: printed text of the model and of the implementation differ",
                      {"suite": "expr", "first_divergence": diffs[0], "n": len(diffs)})
+        if mgr_diffs:
+            mpref, d0 = mgr_diffs[0]
+            v.broken("correspondence: manager model and implementation disagree on `%s` after `%s`" % (d0["field"], d0["op"]),
+                     {"suite": "mgr", "family": "c11", "ops": S.history_ops(suite_mgr.Mgr(), mpref, d0["hist"]),
+                      "first_divergence": d0, "n_diverging_histories": len(mgr_diffs)})
 
     samples = []
     if prefixes:
@@ -125,9 +162,9 @@ def run(prop, tier, seed, replay=None):
                 "pairs, every builtin, every in-place operator in value and expression case, each class x slot) plus random "
                 "trees to depth 5 over ints, floats, bools, complex, numpy scalars; non-trivial = the case built a deferred "
                 "expression and reached its oracle" % family,
-        "samples": samples, "traces_validated_against_impl": nlines,
+        "samples": samples, "traces_validated_against_impl": nlines + mgr_lines,
         "tie_a_obligations": gen_total, "tie_a_discharged": gen_ok, "tie_a_notes": tie_notes,
-        "correspondence_divergences": len(diffs), "oracle_failures": len(failures),
+        "correspondence_divergences": len(diffs) + len(mgr_diffs), "oracle_failures": len(failures) + len(mgr_failures),
         "input_distribution": dict(sorted(stats_total.items())), "builds": [b[0] for b in builds], "lean_problems": lean_problems})
     v.assumptions = ["meaning of each primitive Python operator = Python itself (parameter of the theorems)",
                      "numpy scalars or arrays standing to the left of a ref are excluded (numpy owns the operator)"]
